@@ -379,7 +379,7 @@ PROPS["C02"] = dict(
          "refinement pair divideBy2 = k -> k+1 on nr_exp=4 (finest 65x128 or 129x256 in quick, up to 257x512 in thorough). "
          "Each of the four solves (pair x extrapolation off/on) uses FMG + F-cycles to rel 1e-11 / abs 1e-13; a case whose "
          "algebraic error is not negligible (stop test missed, or API error figures and recomputed errors differ by >1e-3) "
-         "or whose error is below the rounding floor 1e3*eps*kappa_est*max|u| or unresolved (>0.1 max|u|) is inconclusive "
+         "or whose error is below the floor 1e-9*max|u| or unresolved (>0.1 max|u|) is inconclusive "
          "(counted). Oracle: order log2(e_k/e_k+1) >= 1.8 without and > 3.0 with implicit extrapolation in the weighted l2 "
          "and the max norm (errors recomputed from solution() with fresh ExactSolution objects), extrapolated error < plain "
          "error on the finest grid. Known finding F12 (CartesianR6, max norm, order in [2.9,3.0]) excluded and counted. "
